@@ -37,6 +37,15 @@ def arg_py(pg, a):
     if isinstance(content, list):
       return pg.List(content, value_spec=spec, allow_partial=a[2])
     return pg.Dict(content, value_spec=spec, allow_partial=a[2])
+  if a and a[0] == 'held':
+    # an already typed container that SITS IN ANOTHER (non-partial) TREE: the receiver stores a copy,
+    # and the original -- still a member of its holder -- must stay as it is
+    spec = tv.build(a[1])
+    content = tv.to_py(a[2])
+    c = (pg.List(content, value_spec=spec) if isinstance(content, list) else pg.Dict(content, value_spec=spec))
+    holder = pg.Dict({'h': c}, value_spec=pg.typing.Dict([('h', tv.build(a[1]))]))
+    _HELD.append((holder, c))
+    return holder.h
   if a and a[0] == 'untyped':
     # an UNTYPED pg.List / pg.Dict (no value spec yet): it validates like the plain value, but
     # `custom_apply` binds it to the field's spec before its content is validated
@@ -48,6 +57,7 @@ def arg_py(pg, a):
 
 
 _UNTYPED = []
+_HELD = []
 
 
 def run_list_op(pg, lst, op):
@@ -308,9 +318,31 @@ class C03(Prop):
     fd['fz'] = True
     fd['n'] = 2 if fd['k'] == 'enum' else g.r.choice([1, 2])
 
+  def frozen_outer(self, rng):
+    """A field frozen at a container value where the FIELD spec is not the container spec itself: `Any`,
+    a Union frozen as a whole, or a noneable List / Dict -- its content is as immutable as the field."""
+    lst = ['l', [['i', 1], ['i', 2]]]
+    dct = ['d', [['q', ['i', 1]]]]
+    dspec = {'k': 'dict', 'fields': [[['c', 'q'], {'k': 'int', 'lo': None, 'hi': None, 'n': 0}]], 'n': 0}
+    lspec = {'k': 'list', 'elem': {'k': 'int', 'lo': None, 'hi': None, 'n': 0}, 'mn': None, 'mx': None, 'n': 0}
+    # (a NONEABLE List / Dict spec frozen at a container cannot be used at all: `ensure_value_spec` refuses it
+    # with TypeError at construction -- fail-safe, outside the property)
+    c = rng.below(2)
+    if c == 0:
+      return {'k': 'any', 'n': 2, 'd': copy.deepcopy(rng.choice([lst, dct])), 'fz': True}
+    v, sp = rng.choice([(lst, lspec), (dct, dspec)])
+    cands = [copy.deepcopy(sp), {'k': rng.choice(['int', 'str']), 'lo': None, 'hi': None, 'rx': None, 'n': 0}]
+    if rng.chance(0.4):
+      cands.reverse()
+    return {'k': 'union', 'cands': cands, 'n': 0, 'd': copy.deepcopy(v), 'fz': True}
+
   def sub_paths(self, fd, depth=0):
     """(path suffix, spec description of the addressed member or None) below a container spec."""
     out = []
+    if fd.get('fz') and fd.get('d') and fd['k'] in ('any', 'union') and fd['d'][0] in ('l', 'd'):
+      if fd['d'][0] == 'l':
+        return [([i], None) for i in (0, 1, 5)]
+      return [([k], None) for k, _ in fd['d'][1]] + [(['zz'], None)]
     if fd['k'] == 'union':
       for c in fd['cands']:
         if c['k'] in ('list', 'dict'):
@@ -349,6 +381,9 @@ class C03(Prop):
       fields = []
       for nm in names:
         fd = g.spec(0)
+        if rng.chance(0.12):
+          fields.append([['c', nm], self.frozen_outer(rng)])
+          continue
         if rng.chance(0.75):
           for _try in range(30):
             c = g.spec(rng.choice([1, 1, 2]))
@@ -580,6 +615,8 @@ class C03(Prop):
       except (TypeError, ValueError, KeyError):
         return None
       a[3] = tv.from_py(c)
+      if not sp and rng.chance(0.25):
+        return ['held', src, a[3]]
       return a
 
     def val(key):
@@ -672,6 +709,16 @@ class C03(Prop):
       if '"typed"' in json.dumps(op) and rng.chance(0.35):
         ops.append([copy.deepcopy(op), scope])      # the same write retried (a rejected write must stay rejected)
     case = {'kind': kind, 'spec': spec, 'partial': partial, 'items': items, 'ops': ops}
+    if rng.chance(0.2):
+      # built INSIDE a pg.allow_partial scope; all the steps run after the scope was left
+      case['build_scope'] = rng.chance(0.7)
+      if case['build_scope'] and not partial:
+        req = [f[0][1] for f in fields if f[0][0] == 'c' and f[1].get('d') is None]
+        for nm in rng.sample(req, min(len(req), rng.randint(1, 2))):
+          c = rng.choice(['setattr' if kind == 'object' else 'setitem', 'rebind', 'delitem' if kind == 'dict' else 'rebind'])
+          op = [c, [[nm, ['M']]]] if c == 'rebind' else ([c, nm] if c == 'delitem' else [c, nm, ['M']])
+          ops.insert(rng.below(len(ops) + 1), [op, None])
+      return case
     if kind == 'dict' and not partial and rng.chance(0.1):
       case['bind'] = True                      # pg.Dict(items).use_value_spec(spec)
       plain = [it for it in items if not (it[1] and it[1][0] in ('typed', 'untyped'))]
@@ -712,6 +759,10 @@ class C03(Prop):
           sst = tv.readback(tv.build(x[1]))
           states.append(sst)
           return ['typed', sst, x[2], x[3]]
+        if x and x[0] == 'held':
+          sst = tv.readback(tv.build(x[1]))
+          states.append(sst)
+          return ['typed', sst, False, x[2]]      # the model: a typed container (the receiver copies it)
         if x and x[0] == 'untyped':
           return x[1]                 # the model: validated exactly like the plain value
         return [conv(y) for y in x]
@@ -721,6 +772,8 @@ class C03(Prop):
            'env': tv.env_for(states, self.atom_values(case))}
     if case['kind'] != 'list':
       req['partial'] = case['partial']
+      if case.get('build_scope') is not None:
+        req['construct_partial'] = bool(case['build_scope'])
     return req
 
   def atom_values(self, case):
@@ -822,7 +875,11 @@ class C03(Prop):
       return True
 
     kwargs = {k: tv.to_py(v) for k, v in case['items']}
+    # construction may happen inside a `pg.allow_partial(x)` scope; every later step runs after it was left
+    bscope = case.get('build_scope')
+    bctx = pg.allow_partial(bscope) if bscope is not None else contextlib.nullcontext()
     try:
+     with bctx:
       if is_object:
         _CLS_COUNTER[0] += 1
         cls = pg.members([(f.key, f.value) for f in schema.values()])(
@@ -846,6 +903,7 @@ class C03(Prop):
       err = None
       ctx = pg.allow_partial(scope) if scope is not None else contextlib.nullcontext()
       del _UNTYPED[:]
+      del _HELD[:]
       pyop = prebuild(pg, op)
       try:
         with ctx:
@@ -861,6 +919,8 @@ class C03(Prop):
           except (TypeError, ValueError, KeyError):
             stale = True
       out.setdefault('stale_bound', []).append(stale)
+      out.setdefault('held_changed', []).append(
+          any(c.allow_partial or h.sym_getattr('h') is not c for h, c in _HELD))
       # every symbolic member still knows its place (parent and key), also after a rejected write
       att = True
       for k, v in target.sym_items():
@@ -938,7 +998,12 @@ class C03(Prop):
           'constructed %s %s violates its spec %s' % (kind, json.dumps(m['construct']), json.dumps(st)))
     if not out.get('typed', True):
       add('value-spec-lost:' + kind, 'the container is no longer bound to its value spec')
-    partial_allowed = kind != 'list' and case['partial']
+    # `partial_allowed`: the container's own mode, or it HAS been made partial under a permission
+    # (its constructor argument / an enclosing pg.allow_partial(True) scope) -- a scope that was merely
+    # active while a complete value was written gives no permission for later
+    partial_allowed = kind != 'list' and bool(case['partial'])
+    if kind != 'list' and not m['complete'] and case.get('build_scope'):
+      partial_allowed = True
     if kind != 'list' and not partial_allowed and not m['complete']:
       add('construct-partial:' + kind, 'constructed without allow_partial but a required field is missing: %s' % json.dumps(m['construct']))
     prev = m['construct']
@@ -947,13 +1012,17 @@ class C03(Prop):
     scopes = [None] * len(ops) if kind == 'list' else [s for _, s in case['ops']]
     why_steps = out.get('why_steps') or [[]] * len(ops)
     for i, (op, scope, s) in enumerate(zip(ops, scopes, m['steps'])):
-      if scope:
+      if scope and not s['complete']:
         partial_allowed = True
       why = why_steps[i] if i < len(why_steps) else []
       if kind != 'list' and not out.get('attached', [True] * len(ops))[i]:
         add('member-detached:%s:%s' % (kind, op[0]),
             'after %s (%s) a symbolic member of the %s no longer has it as parent / its key as path' % (
                 json.dumps(op), s['err'] or 'ok', kind))
+      if kind != 'list' and (out.get('held_changed') or [False] * len(ops))[i]:
+        add('shared-original-mode-changed:assignment',
+            '%s: the container offered is a member of another (non-partial) tree; the receiver stored a copy, yet the '
+            'original now has allow_partial=True (or left its holder)' % json.dumps(op))
       if kind != 'list' and (out.get('stale_bound') or [False] * len(ops))[i]:
         add('bound-to-rejected-spec:assignment',
             '%s raised %s, yet the untyped container offered stays bound to the field spec that rejected its content' % (
@@ -982,6 +1051,11 @@ class C03(Prop):
               sig = 'typed-container-trusted:' + t
           add(sig, 'after %s the %s %s violates its spec %s' % (
               json.dumps(op), kind, json.dumps(s['items']), json.dumps(st)))
+        elif op[0] == 'rebind_paths' and (case.get('build_scope') or any(sc for sc in scopes[:i])):
+          # written through a NESTED container that was created while a pg.allow_partial(True) scope was active
+          add('scope-partial-mode-kept:%s' % kind,
+              'after %s (outside any scope) a nested container created inside a pg.allow_partial(True) scope still '
+              'accepts MISSING_VALUE: %s' % (json.dumps(op), json.dumps(s['items'])))
         else:
           add('required-field-missing:%s:%s' % (kind, op[0]),
               'after %s (never partial) a required field is missing: %s' % (json.dumps(op), json.dumps(s['items'])))
@@ -1026,6 +1100,8 @@ class C03(Prop):
       args = [(k, v) for k, v in op[1]]
     fields = {f[0][1]: f[1] for f in case['spec']['fields'] if f[0][0] == 'c'}
     for k, a in args:
+      if a and a[0] == 'held':
+        a = ['typed', a[1], False, a[2]]
       if a and a[0] == 'typed' and k in fields:
         dst = tv.readback(tv.build(fields[k]))
         src = tv.readback(tv.build(a[1]))
